@@ -184,6 +184,22 @@ func run(c *rig.Ctx) {
 		if len(seq) < 3 {
 			return
 		}
+		// the sequence as the sweep unit goes on producing it after the judged prefix (until it
+		// overflows and switches the channel off): used to recognise later frequencies and to bound
+		// the one interval that may straddle an update
+		ext := append([]int{}, seq...)
+		for len(ext) < 64 {
+			f := ext[len(ext)-1]
+			d := f >> uint(shift)
+			nf := f + d
+			if down {
+				nf = f - d
+			}
+			if nf > 2047 || nf < 0 {
+				break
+			}
+			ext = append(ext, nf)
+		}
 		m := newMachine()
 		for k := 0; k < r.Intn(9000); k++ {
 			m.Audio.EndMachineCycle()
@@ -212,8 +228,8 @@ func run(c *rig.Ctx) {
 				fobs := 2048 - int(n-lastStep)
 				// which element of the sequence is it?
 				at := -1
-				for j := idx; j < len(seq); j++ {
-					if seq[j] == fobs {
+				for j := idx; j < len(ext); j++ {
+					if ext[j] == fobs {
 						at = j
 						break
 					}
@@ -223,6 +239,23 @@ func run(c *rig.Ctx) {
 				case at < 0:
 					// one interval may straddle a frequency update
 					c.Count("sweep_transition_intervals", 1)
+					// Round 10: an update changes the length of the periods that start after it; it does
+					// not restart the running one. Steps are at most 2048 cycles apart and updates at
+					// least 8192, so an interval straddles at most one update: its length lies between
+					// the period before and the period after that update.
+					L := int(n - lastStep)
+					pa, pb := 2048-ext[idx], 2048-ext[idx]
+					if idx+1 < len(ext) {
+						pb = 2048 - ext[idx+1]
+					}
+					if pa > pb {
+						pa, pb = pb, pa
+					}
+					if L < pa || L > pb {
+						c.Violate("sweep-step-interval", fmt.Sprintf("NR10=%02X (period %d, shift %d, decreasing=%v), triggered at f=%d: two consecutive duty steps %d machine cycles apart at cycle %d, while the frequencies in use around the update are %d and the next of %v (periods %d..%d cycles)",
+							nr10, per, shift, down, f0, L, n, ext[idx], ext, pa, pb), map[string]any{"nr10": nr10, "f0": f0, "sequence": ext})
+						return
+					}
 				default:
 					if at > idx+1 {
 						c.Count("sweep_skipped_elements", 1)
